@@ -123,7 +123,7 @@ struct C11 : Scenario {
         Json p = Json::object();
         p["scenario"] = "S-RUN";
         if (!shipped.empty() && mix64(run ^ 0xC11) % 5 == 0) { p["kind"] = "shipped"; p["deck_pick"] = static_cast<long long>(rng.below(100000)); return p; }
-        GenOpts o; o.max_steps = tier == "thorough" ? 8 : 6; o.max_actions = 2; o.max_udq = 2; o.restart_safe_conditions = false; o.esmry = true; o.late_edits = true; o.reparent_groups = true; o.udq_unary_minus = true;
+        GenOpts o; o.max_steps = tier == "thorough" ? 8 : 6; o.max_actions = 2; o.max_udq = 2; o.restart_safe_conditions = false; o.esmry = true; o.late_edits = true; o.reparent_groups = true; o.udq_unary_minus = true; o.family_snippets = true;
         p["model_seed"] = static_cast<long long>(rng.next() >> 8); p["gen"] = o.to_json(); p["physics_seed"] = static_cast<long long>(rng.next() >> 16);
         Json ms = Json::array();
         for (int s = 0; s < o.max_steps; ++s) { Json f = Json::array(); int n = static_cast<int>(rng.range(1, 3)); for (int k = 1; k < n; ++k) f.push(static_cast<double>(k) / n); f.push(1.0); ms.push(f); }
